@@ -358,6 +358,10 @@ class RemoteWorker(Worker, metaclass=RemoteWorkerMeta):
             return not alive
 
     def _get_result(self):
+        if self._result is None and self._started and not self._remote_side and not self._child.is_alive():
+            # the frontend thread ended without storing a result (e.g. the received result
+            # could not be rebuilt on this side)
+            self._result = (False, None)
         return self._result
 
     #
